@@ -471,6 +471,33 @@ def wrapper_identity_cases() -> list[tuple[str, str]]:
                 except Exception as ex:  # pylint: disable=broad-except
                     msgs.append(f"inference on the product raised {type(ex).__name__}")
                 out.append((key, "; ".join(msgs)))
+    # history: an operand over a user-defined unit is wrapped, the unit is (re)defined, the same
+    # operand is wrapped again: the wrapper shows the dimension the operand has now
+    from sympy.physics.units import Quantity as SQ
+    from sympy.physics.units.systems.si import SI
+    for k, cls in enumerate((Average, FiniteDifference, ExactDifferential, InexactDifferential)):
+        for first in ("undefined", "length"):
+            unit = SQ(f"vp_wrapper_unit_{k}_{first}")
+            x = Symbol("x", U.length)
+            if first == "length":
+                SI.set_quantity_dimension(unit, U.length)
+                SI.set_quantity_scale_factor(unit, 2 * U.meter)
+            try:
+                cls(unit * x)
+            except Exception:  # pylint: disable=broad-except
+                pass  # nothing is promised for a unit that is not defined yet
+            SI.set_quantity_dimension(unit, U.time)
+            SI.set_quantity_scale_factor(unit, 3 * U.second)
+            key = f"wrapper-history:{cls.__name__}:{first}->time"
+            try:
+                w = cls(unit * x)
+                got = lib_dim(w.dimension)
+                op = lib_dim(collect_expression_and_dimension(unit * x)[1])
+                ok = dims.same(got, dims.T * dims.L) and dims.same(op, dims.T * dims.L)
+                out.append((key, "" if ok else f"wrapper shows {got}, inference on the operand {op}, "
+                    f"reference {dims.T * dims.L}"))
+            except Exception as ex:  # pylint: disable=broad-except
+                out.append((key, f"raised {type(ex).__name__}: {short(ex)}"))
     return out
 
 
